@@ -4,7 +4,8 @@
    HOOK_TOP_KEYS and, inside a tool_input object, the keys of HOOK_TOOL_INPUT_KEYS (both tables are regenerated
    from dippy.py by tools/tables/t06_hookkeys.py) - and drops everything else: every other top-level key with
    whatever it holds (tool_response, session data, look-alike spellings), every other key of tool_input, every
-   deeper level.  A value that is not an object is left alone.
+   deeper level; the members that remain are listed in the tables' order, so that the order of the members in the
+   payload, repeated members and an empty tool_input are normalised away too.  A value that is not an object is left alone.
 
    The decoy constructors describe where a key of the same NAME as a host field can be put without being the
    host's field: inside tool_input, inside any other top-level member, at any depth. *)
@@ -13,17 +14,26 @@ From DippyV Require Import Base.Str Gen.Tables Model.Hook.
 Import ListNotations.
 Open Scope N_scope.
 
-Definition keep (keys : list str) (kv : list (str * json)) : list (str * json) :=
-  filter (fun p => mem_str (fst p) keys) kv.
+(* the members called k1, k2, ... of an object, in that order, each at most once (a JSON reader sees the value
+   [assoc] finds); [norm k v] = None drops the member *)
+Definition pick (norm : str -> json -> option json) (keys : list str) (kv : list (str * json)) : list (str * json) :=
+  flat_map (fun k => match assoc k kv with
+                     | Some v => match norm k v with Some v' => [(k, v')] | None => [] end
+                     | None => []
+                     end) keys.
 
 Definition ti_view (j : json) : json :=
-  match j with JObj kv => JObj (keep HOOK_TOOL_INPUT_KEYS kv) | _ => j end.
+  match j with JObj kv => JObj (pick (fun _ v => Some v) HOOK_TOOL_INPUT_KEYS kv) | _ => j end.
 
-Definition top_entry (p : str * json) : str * json :=
-  if str_eqb (fst p) $"tool_input" then (fst p, ti_view (snd p)) else p.
+Definition is_empty_obj (j : json) : bool := match j with JObj [] => true | _ => false end.
+
+(* tool_input is reduced to its own view; an absent tool_input and one whose view is {} are the same thing to the
+   hook (`input_data.get("tool_input", {})`), so the latter is dropped: the view is a normal form *)
+Definition top_norm (k : str) (v : json) : option json :=
+  if str_eqb k $"tool_input" then (if is_empty_obj (ti_view v) then None else Some (ti_view v)) else Some v.
 
 Definition host_view (j : json) : json :=
-  match j with JObj kv => JObj (map top_entry (keep HOOK_TOP_KEYS kv)) | _ => j end.
+  match j with JObj kv => JObj (pick top_norm HOOK_TOP_KEYS kv) | _ => j end.
 
 (* ---- where a decoy can live *)
 (* insert a member at any position of an object *)
